@@ -2,7 +2,7 @@
  * C01 (data layer, writer side) / C17 (DONT_FRAGMENT): the block processor
  * front end sqfs_block_processor_begin_file / append / end_file
  * (lib/sqfs/src/block_processor/frontend.c, #included) cuts a file that
- * arrives in NAPP appends of symbolic sizes into blocks of the (scaled)
+ * arrives in NAPP appends (sizes = shape parameter SIZES) into blocks of the (scaled)
  * block size BS and hands them to the thread pool.
  *
  * env: the pool is a recording stub (submit copies flags, size, index, data
@@ -69,6 +69,7 @@ void harness(void)
 	unsigned char in[MAXIN];
 	size_t n[NAPP], total = 0, off = 0, k, i;
 	sqfs_u32 uflags = ND_U32();
+	static const size_t sizes[NAPP] = { SIZES };
 	int ret, marker;
 
 	POOL.submit = submit_stub; POOL.get_status = status_stub;
@@ -85,8 +86,11 @@ void harness(void)
 
 	for (i = 0; i < MAXIN; ++i) in[i] = ND_U8();
 	for (k = 0; k < NAPP; ++k) {
-		n[k] = ND_SZ();
-		VP_ASSUME(n[k] >= 1 && total + n[k] <= MAXIN);
+		/* append sizes are the obligation's shape (SIZES): with symbolic sizes
+		   every loop iteration may or may not start a new heap block and symex
+		   does not finish; the content, flags and failures stay symbolic */
+		n[k] = sizes[k];
+		VP_ASSERT(n[k] >= 1 && total + n[k] <= MAXIN, "shape within the input buffer");
 		ret = sqfs_block_processor_append(proc, in + total, n[k]);
 		if (ret != 0) {
 			VP_ASSERT(pool_failed || dequeues > 0, "C13: append fails only when the pool or the back end failed");
@@ -112,7 +116,7 @@ void harness(void)
 		VP_ASSERT(fi == 0xFFFFFFFF && fo == 0xFFFFFFFF, "no fragment location before the back end assigns one");
 		for (k = 0; k < MAXBLK; ++k) {
 			if (k >= nsub) continue;
-			VP_ASSERT(s_user[k] == &marker && s_inode[k] == &inode, "user pointer and inode travel with every block");
+			VP_ASSERT(s_inode[k] == &inode && (s_size[k] == 0 || s_user[k] == &marker), "the inode travels with every block, the user pointer with every data block");
 			VP_ASSERT((s_flags[k] & SQFS_BLK_USER_SETTABLE_FLAGS) == uflags, "C17: the per-file flags travel with every block");
 			VP_ASSERT(((s_flags[k] & SQFS_BLK_FIRST_BLOCK) != 0) == (k == 0), "exactly the first block carries FIRST_BLOCK");
 			if (s_flags[k] & SQFS_BLK_LAST_BLOCK) nlast++;
